@@ -51,7 +51,29 @@ PickAny ==
        /\ \A k \in 1 .. Len(e.idx) : e.idx[k] >= 0 /\ e.idx[k] < Len(e.wz) /\ e.wz[e.idx[k] + 1] = 1
     /\ l' = l + 1
 
-Next == Pick \/ McPick \/ Count \/ PickAny
+\* selections at the full precision of the numeric type.  A case is <<b1, b2, b3, b4, idx>>: base = sum b_i 2^(16 (i - 1)) is the raw output minus
+\* four units 2^ushift; Q = floor(x S / 2^64) for x = base and x = base + 8 units by a carry chain over the 16-bit limbs; channel i owns x / 2^64
+\* iff it is the first with Cum(w, i) > Q.  Within four units of a boundary (the two ends disagree) either neighbour is admissible.
+QOf(b, S, o, add) ==
+    LET C[i \in 0 .. 4] == IF i = 0 THEN 0 ELSE (b[i] * S + C[i - 1] + (IF i = o + 1 THEN add ELSE 0)) \div 65536
+    IN C[4]
+FirstAbove(w, q) == LET c == {i \in 1 .. Len(w) : Cum(w, i) > q} IN IF c = {} THEN 0 ELSE CHOOSE i \in c : \A k \in c : i <= k   \* (0: beyond one)
+PickWide ==
+    /\ l <= TraceLen
+    /\ LET e == TheTrace[l]
+           S == Total(e.w)
+           o == e.ushift \div 16
+           add == 8 * (2 ^ (e.ushift % 16)) * S
+       IN /\ e.e = "PickWide"
+          /\ Len(e.cases) = e.n /\ e.draws = e.n                     \* one canonical number per selection
+          /\ \A k \in 1 .. Len(e.cases) :
+                LET c == e.cases[k]
+                    lo == FirstAbove(e.w, QOf(c, S, o, 0))
+                    hi == FirstAbove(e.w, QOf(c, S, o, add))
+                IN c[5] + 1 \in {lo, hi}
+    /\ l' = l + 1
+
+Next == Pick \/ McPick \/ Count \/ PickAny \/ PickWide
 Spec == Init /\ [][Next]_vars
 TraceAccepted == TraceAcceptedBy(TraceLen)
 =============================================================================
